@@ -76,3 +76,19 @@ Proof.
     repeat (apply seg_text; [reflexivity|]).
     apply seg_pos; [reflexivity|reflexivity|exact I|constructor].
 Qed.
+
+(* inject_parameters(build(s)) = to_string(s), under lexical separability (Proofs/InjectProofs.v): for EVERY
+   writer script (hence every statement), if the crate's tokenizer reads the parameterised SQL piece by piece -
+   the tokens of every text piece spell exactly that text and contain no mark token, every hole contributes its
+   placeholder token(s) - then inject_parameters applied to build()'s SQL and values returns exactly the inline
+   SQL.  The hypothesis is what the known findings F16 and F28 violate (a literal mis-lexed by the generic
+   tokenizer swallows the text after it); on all other generated statements the check observes the identity on
+   the implementation. *)
+Require Import SQV.Proofs.WriterProofs SQV.Proofs.InjectProofs.
+Theorem C11_inject_gives_inline :
+  forall (ftext : bool -> N -> str) (is_alpha : N -> bool) b params (sc : script) sql vals inl ts,
+  emit_params ftext b sc = Ok (sql, vals) -> emit_inline ftext b sc = Ok inl -> vals = params ->
+  tokenize is_alpha sql = Some ts -> all_ptoks b (pieces ftext b sc) ts ->
+  inject_parameters ftext is_alpha b sql params = Ok inl.
+Proof. exact inject_gives_inline. Qed.
+Print Assumptions C11_inject_gives_inline.
